@@ -377,9 +377,12 @@ func driverMain(args []string) {
 	if *prop == "C19" {
 		cov["interleavings"] = map[string]int{"distinct_schedule_digests": len(total.SchedDigests), "distinct_preemption_triples": len(total.Triples)}
 	}
+	if *prop == "C08" || *prop == "C01" {
+		cov["enumerated_per_document"] = "phase part-enum: every partition of a tiny document (<= 11 bytes) into reads; phases trunc-enum / B-enum: every cut / fault point k in [0,len]"
+	}
 	if *prop == "C20" {
 		cov["exhaustive"] = false
-		cov["enumerated_per_document"] = "every failing write index j in [0,W) for both writer flavours"
+		cov["enumerated_per_document"] = "every failing write index j in [0,W) for the io.Writer and io.StringWriter flavours (and for the richwriter flavour: every j in thorough, every third j in quick)"
 	}
 	ev := map[string]interface{}{
 		"property_id": *prop, "tier": *tier, "seed": *seed, "level": level, "coverage": cov,
